@@ -113,11 +113,16 @@ func typeName(t message.Type) string {
 	return fmt.Sprintf("t%d", int(t))
 }
 
+// reqMethod (`srvm` lines): the request's method code (default POST); RFC 8132's FETCH / PATCH / iPATCH (5, 6, 7) are delivered
+// to handlers like the four core methods.  reqPath (`srvnf` lines): a path the router has no route for.
+var reqMethod = codes.POST
+var reqPath = "/x"
+
 func buildReq(udp bool, con bool, v int64, extra ...message.OptionID) []byte {
 	m := pool.NewMessage(context.Background())
-	m.SetCode(codes.POST)
+	m.SetCode(reqMethod)
 	m.SetToken(reqToken)
-	_ = m.SetPath("/x")
+	_ = m.SetPath(reqPath)
 	if bwMode {
 		m.SetCode(codes.GET)
 		m.SetOptionUint32(message.Size2, 0)
@@ -464,6 +469,39 @@ func TestC20(t *testing.T) {
 				o = strings.Fields(o + " - -")[1]
 			}
 			fmt.Fprintln(w, o)
+		case len(f) == 6 && f[0] == "srvm":
+			// srvm <udp|tcp> <con|non> <v|-> <code> <method>: the request carries another method code
+			handlerMutates, badLength, callCodes = nil, nil, nil
+			mc, _ := strconv.ParseUint(f[5], 10, 8)
+			reqMethod = codes.Code(mc)
+			v := int64(-1)
+			if f[3] != "-" {
+				v, _ = strconv.ParseInt(f[3], 10, 64)
+			}
+			c, _ := strconv.ParseUint(f[4], 10, 16)
+			if f[1] == "udp" {
+				fmt.Fprintln(w, srvUDP(t, f[2] == "con", v, codes.Code(c)))
+			} else {
+				fmt.Fprintln(w, srvTCP(t, v, codes.Code(c)))
+			}
+			reqMethod = codes.POST
+		case len(f) == 4 && f[0] == "srvnf":
+			// srvnf <udp|tcp> <con|non> <v|->: a mux.Router installed with options.WithMux has no route for the request's
+			// path; its own default handler answers 4.04 - through the response writer, so No-Response applies to it too
+			handlerMutates, badLength, callCodes = nil, nil, nil
+			handlerMode = "mux"
+			reqPath = "/missing"
+			v := int64(-1)
+			if f[3] != "-" {
+				v, _ = strconv.ParseInt(f[3], 10, 64)
+			}
+			if f[1] == "udp" {
+				fmt.Fprintln(w, srvUDP(t, f[2] == "con", v, codes.NotFound))
+			} else {
+				fmt.Fprintln(w, srvTCP(t, v, codes.NotFound))
+			}
+			reqPath = "/x"
+			handlerMode = ""
 		case len(f) == 5 && f[0] == "srvh":
 			// srvh <udp|tcp> <con|non> <v|-> <code>: the handler hijacks and releases its request, then calls SetResponse
 			handlerMutates, badLength, callCodes = nil, nil, nil
